@@ -447,10 +447,20 @@ class _TaskList(_ImmutableTaskList, ABC):
 
 class _ChildrenList(_TaskList):
 
-    def __init__(self, parent: 'Task', _list, _setter):
-        super().__init__(_list)
+    def __init__(self, parent: 'Task', _getter, _setter):
         self.__parent = parent
+        self.__getter = _getter
         self.__setter = _setter
+
+    @property
+    def _list(self):
+        # Always the current children of parent task: list object held by caller must not go stale
+        # when children are sorted, reordered or assigned through another list object
+        return self.__getter()
+
+    @_list.setter
+    def _list(self, value):
+        self.__setter(value)
 
     def append(self, task: 'Task'):
         """
@@ -564,9 +574,14 @@ class _ChildrenList(_TaskList):
 class _PredecessorsList(_TaskList):
     """List of predecessor tasks"""
 
-    def __init__(self, parent: 'Task', _list):
-        super().__init__(_list)
+    def __init__(self, parent: 'Task', _getter):
         self.__parent = parent
+        self.__getter = _getter
+
+    @property
+    def _list(self):
+        # Always the current predecessors of task, see _ChildrenList
+        return self.__getter()
 
     def append(self, task: 'Task'):
         """
@@ -593,9 +608,14 @@ class _PredecessorsList(_TaskList):
 class _SuccessorsList(_TaskList):
     """List of successors tasks"""
 
-    def __init__(self, parent: 'Task', _list):
-        super().__init__(_list)
+    def __init__(self, parent: 'Task', _getter):
         self.__parent = parent
+        self.__getter = _getter
+
+    @property
+    def _list(self):
+        # Always the current successors of task, see _ChildrenList
+        return self.__getter()
 
     def append(self, task: 'Task'):
         """
@@ -800,7 +820,7 @@ class Task:
     @property
     def children(self) -> _ChildrenList:
         """List of direct children tasks"""
-        return _ChildrenList(self, self.__children, self.__set_children)
+        return _ChildrenList(self, lambda: self.__children, self.__set_children)
 
     @children.setter
     def children(self, value: Union['Task', Iterable['Task']]):
@@ -858,7 +878,7 @@ class Task:
     @property
     def predecessors(self) -> _PredecessorsList:
         """List of direct predecessors"""
-        return _PredecessorsList(self, self.__predecessors)
+        return _PredecessorsList(self, lambda: self.__predecessors)
 
     @predecessors.setter
     def predecessors(self, value: Union['Task', Iterable['Task']]):
@@ -912,7 +932,7 @@ class Task:
     @property
     def successors(self) -> _SuccessorsList:
         """List of direct successors"""
-        return _SuccessorsList(self, self.__successors)
+        return _SuccessorsList(self, lambda: self.__successors)
 
     @successors.setter
     def successors(self, value: Union['Task', Iterable['Task']]):
